@@ -9,7 +9,7 @@ import UF.Model.ParseOptions
   `shouldMatchHostname` (rules/network.go) — the functions of UF/Model/Match.lean written with the
   Go slice / index expressions as checked operations, so that their crash-freedom is a theorem.
 -/
-namespace UF
+namespace UF.E
 open Bytes
 
 /-! ### cosmetic markers -/
@@ -183,4 +183,4 @@ def shouldMatchHostnameC (r : NetRule) (q : Request) : PE Bool :=
     else pure true
   else pure true
 
-end UF
+end UF.E
